@@ -46,4 +46,11 @@ def main() -> int:
 
 
 if __name__ == "__main__":
-    sys.exit(main())
+    rc = main()
+    sys.stdout.flush()
+    sys.stderr.flush()
+    import threading
+
+    if any(t is not threading.main_thread() and t.is_alive() and not t.daemon for t in threading.enumerate()):
+        os._exit(rc)  # a thread left behind by the code under test must not hang the check
+    sys.exit(rc)
